@@ -876,18 +876,26 @@ class Sentinels:
 
     CORES = ('sent', 'secret', 'abc', 'axc', '2024', '7', 'me@', 'x', 'a1', 'ab', 'user@example.com')
 
+    def __init_matches(self):
+        if not hasattr(self, 'matched'):
+            self.matched = {}        # sentinel -> (matched text, groups): what the redactor's regex selects in it
+
     def matching(self, regex):
         """A unique string the redactor's regex matches (the path that prints the regex groups instead of the mask);
-        the unique part sits after the match, outside every group. None when no simple candidate matches."""
+        the unique part sits after the match, outside every group. Cores that carry the counter come first, so that
+        the matched text itself is unique where the regex allows it. None when no simple candidate matches."""
         import re
+        self.__init_matches()
         self.n += 1
-        for core in self.CORES:
+        unique = ('%d' % (9000000 + self.n), 'w%dw@' % (9000000 + self.n))
+        for core in unique + self.CORES:
             s = '%sQ%dZ' % (core, self.n)
             try:
                 m = re.search(regex, s)
             except re.error:
                 return None
             if m and m.end() <= len(core):
+                self.matched[s] = (m.group(0), tuple(g for g in m.groups() if g))
                 return s
         return None
 
@@ -1050,6 +1058,14 @@ def suite_perms(ck, sessions, n_values, judge=True):
                                              {'kind': 'redact-leak'},
                                              {'specs': ses.specs, 'type': label, 'value': stored, 'perms': eperms,
                                               'sentinel': s, 'text': text[:400]})
+                        # the part the redactor's regex matched may appear only as far as it lies in a group
+                        # ("replaced by the blot mask, by the configured regex groups, or by its hash")
+                        hit = getattr(sent, 'matched', {}).get(s)
+                        if hit and len(hit[0]) >= 7 and not any(hit[0] in g for g in hit[1]) and hit[0] in text:
+                            ck.failing_input('C13: the text a redactor\'s regex matched appears in the output although '
+                                             'it is not in a group', {'kind': 'redact-leak-match'},
+                                             {'specs': ses.specs, 'type': label, 'value': stored, 'perms': eperms,
+                                              'sentinel': s, 'matched': hit[0], 'text': text[:400]})
             if not redact:
                 docs.append((w, eperms, real[1]))
             if len(ck.samples) < 4 and (acc['omitted'] or acc['redacted']) and redact:
